@@ -207,8 +207,11 @@ def _check_stop_iteration():
     import taskchain.utils.iter as it
     import taskchain.utils.threading as th
 
+    import tcv
+
+    tcv.quiet_library()
     res = Result()
-    _harness('threading')  # silent progress bar
+    _harness('threading')
     for impl, fn in (('threading', lambda f, xs: th.parallel_map(f, xs, threads=1, use_tqdm=True, chunksize=2)), ('threading-notqdm', lambda f, xs: th.parallel_map(f, xs, threads=1, use_tqdm=False)),
                      ('iter', lambda f, xs: it.parallel_map(f, xs, threads=1))):
         for at in (0, 2, 4):
@@ -229,6 +232,55 @@ def _check_stop_iteration():
     return res
 
 
+def _check_exception_types():
+    """whatever f raises is what the caller gets, and no element is given to f twice - for every kind of exception, also the ones the
+    machinery itself may raise or catch (RuntimeError and its subclasses, StopIteration, KeyError, OSError)"""
+    import threading as _t
+
+    import taskchain.utils.iter as it
+    import taskchain.utils.threading as th
+
+    import tcv
+
+    tcv.quiet_library()
+    res = Result()
+    _harness('threading')
+
+    class Custom(RuntimeError):
+        pass
+    for exc_type in (RuntimeError, NotImplementedError, RecursionError, Custom, KeyError, OSError, ValueError, LookupError, AssertionError, TimeoutError):
+        for impl, fn in (('threading', lambda f, xs, t: th.parallel_map(f, xs, threads=t, use_tqdm=False, chunksize=3)), ('iter', lambda f, xs, t: it.parallel_map(f, xs, threads=t))):
+            for threads in (1, 2, 3):
+                for transient in (False, True):
+                    xs = [10, 11, 12, 13, 14, 15, 16]
+                    calls = []
+                    lock = _t.Lock()
+
+                    def f(x):
+                        with lock:
+                            calls.append(x)
+                            first = calls.count(x) == 1
+                        if x == 14 and (first or not transient):
+                            raise exc_type('from f')
+                        return ('r', x)
+                    res.add('evaluations')
+                    res.add('transitions')
+                    case = {'kind': 'exctype', 'exc': exc_type.__name__, 'impl': impl, 'threads': threads}
+                    try:
+                        r = fn(f, list(xs), threads)
+                        res.violations.append(Violation(f'parallel_map[{impl}] exception-lost', f'threads={threads}, f raises {exc_type.__name__} at 14{" (first call only)" if transient else ""}: '
+                                                        f'the call returned {r!r}', case))
+                    except exc_type as e:
+                        if e.args != ('from f',):
+                            res.violations.append(Violation(f'parallel_map[{impl}] wrong-exception', f'threads={threads}: {type(e).__name__}{e.args}', case))
+                    except Exception as e:  # noqa
+                        res.violations.append(Violation(f'parallel_map[{impl}] wrong-exception', f'threads={threads}, f raises {exc_type.__name__}: caller gets {type(e).__name__}: {e}', case))
+                    twice = sorted({x for x in calls if calls.count(x) > 1})
+                    if twice:
+                        res.violations.append(Violation(f'parallel_map[{impl}] called-twice', f'threads={threads}, f raises {exc_type.__name__} at 14: f was called more than once for {twice}', case))
+    return res
+
+
 def _check_chunked(tier):
     from taskchain.utils.iter import chunked
 
@@ -236,17 +288,35 @@ def _check_chunked(tier):
     lmax, smax = (8, 9) if tier == 'quick' else (14, 16)
     for length in range(0, lmax):
         for size in range(1, smax):
-            for kind in ('list', 'iter', 'gen', 'tuple', 'str'):
+            import collections
+            for kind in ('list', 'iter', 'gen', 'tuple', 'str', 'dict', 'defaultdict', 'deque', 'keys', 'range', 'array', 'frame'):
                 src = list(range(10, 10 + length))
-                data = {'list': src, 'iter': iter(src), 'gen': (x for x in src), 'tuple': tuple(src), 'str': ''.join(chr(97 + i) for i in range(length))}[kind]
+                if kind == 'frame':
+                    import pandas as pd
+                    data = pd.DataFrame({f'c{i}': [0] * 3 for i in src})   # sized, subscriptable, iterates over column labels
+                    src = [f'c{i}' for i in src]
+                elif kind == 'array':
+                    import numpy as np
+                    data = np.array(src)
+                else:
+                    data = {'list': src, 'iter': iter(src), 'gen': (x for x in src), 'tuple': tuple(src), 'str': ''.join(chr(97 + i) for i in range(length)),
+                            'dict': {x: str(x) for x in src}, 'defaultdict': collections.defaultdict(list, {x: [] for x in src}), 'deque': collections.deque(src),
+                            'keys': {x: 1 for x in src}.keys(), 'range': range(10, 10 + length)}[kind]
                 items = list(data) if kind == 'str' else src
-                got = list(chunked(data, size))
+                try:
+                    got = list(chunked(data, size))
+                    if kind == 'array':
+                        got = [[int(x) for x in c] if type(c) is list else c for c in got]
+                except Exception as e:  # noqa
+                    got = f'{type(e).__name__}: {e}'
+                if kind == 'defaultdict' and len(data) != length:
+                    got = f'input changed: {len(data)} keys'
                 res.add('evaluations')
                 res.add('transitions')
                 exp = [items[i:i + size] for i in range(0, length, size)]
                 if length % size == 0 or length == 0:
                     res.add('distinct_nontrivial')
-                if got != exp or any(type(c) is not list for c in got):
+                if got != exp or any(type(c) is not list for c in got):  # noqa
                     res.violations.append(Violation(
                         signature='chunked wrong-chunks',
                         what=f'chunked({kind} of length {length}, {size}) -> {got}, expected {exp}',
@@ -261,6 +331,7 @@ def run(tier, seed):
     cases = cases[k:] + cases[:k]
     res = Result()
     ck = _check_chunked(tier)
+    ck.merge(_check_exception_types())
     res.merge(ck)
     res.merge(_check_stop_iteration())
     if ck.violations:
@@ -285,6 +356,8 @@ def replay(case):
     import tcv
 
     tcv.quiet_library()
+    if case['kind'] == 'exctype':
+        return [v for v in _check_exception_types().violations if v.case == case]
     if case['kind'] == 'stopiter':
         return _check_stop_iteration().violations
     if case['kind'] == 'chunked':
